@@ -234,6 +234,8 @@ pub fn oracle_c02(_rng: &mut Rng, tier: &str) -> Report {
             Query::Cls("big".into()), Query::Cls("z".into()), Query::Mth("big".into(), "a".into()), Query::Mth("big".into(), "zz".into()),
             Query::Frp("big".into(), "a".into(), "long".into()), Query::Frp("big".into(), "a".into(), "int".into()),
             Query::Frp("big".into(), "zz".into(), "".into()), Query::Frp("z".into(), "k".into(), "int".into()),
+            // the class *after* the big one: its member range starts beyond 2^16 entries
+            Query::Mth("z".into(), "k".into()), Query::Frl("z".into(), "k".into(), 0, None), Query::Frl("z".into(), "k".into(), 5, Some("Z.java".into())),
         ];
         for l in [0usize, 1, 2, 127, 128, 129, 255, 256, 257, 271, 272, 4096, 65535, 65536, 65537, n - 1, n, n + 1] {
             qs.push(Query::Frl("big".into(), "a".into(), l, None));
@@ -255,6 +257,58 @@ pub fn oracle_c02(_rng: &mut Rng, tier: &str) -> Report {
         }
         rep.sample(format!("{} member lines under one name, {} queries", n, qs.len()));
     }
+    // string-table offsets beyond 2^16 (and, thorough, beyond 2^24): every kind of string reference
+    // (class names, file names, member names, foreign classes, parameter strings) lies behind a
+    // filler class that contributes that many string bytes
+    for filler in if thorough(tier) { vec![3_000usize, 450_000] } else { vec![3_000usize] } {
+        let mut t = String::with_capacity(filler * 64 + 1024);
+        t.push_str("o.Filler -> fill:\n");
+        for i in 0..filler {
+            t.push_str(&format!("    void fillerMethodNumber{}WithALongishName(int) -> f{}\n", i, i));
+        }
+        t.push_str("com.late.Klass -> zz.late:\n# {\"id\":\"sourceFile\",\"fileName\":\"LateFile.kt\"}\n");
+        t.push_str("    1:5:void lateMethod(late.Param):10:14 -> lm\n    1:5:void other.pkg.Foreign.inlined(late.P2):20 -> lm\n");
+        t.push_str("    7:9:int late2(late.Param) -> ln\n    void unranged(late.P3) -> lu\n");
+        t.push_str("com.late.Synth -> zz.synth:\n# {\"id\":\"sourceFile\",\"fileName\":\"R8$$SyntheticClass\"}\n    3:4:void far.away.Outer$Inner.call(late.Q):30:31 -> sc\n    void plain(late.Q) -> sp\n");
+        let ms: &'static [u8] = Box::leak(t.into_bytes().into_boxed_slice());
+        let mapper = proto::cur::mapper(ms, true);
+        let cbytes = proto::aligned_static(&proto::cur::write_cache(ms));
+        let Ok(cache) = ProguardCache::parse(cbytes) else {
+            rep.fail("own output does not parse", vec![format!("# filler class with {} methods, then late classes", filler)], String::new());
+            continue;
+        };
+        let mut qs: Vec<Query> = vec![
+            Query::Cls("zz.late".into()), Query::Cls("zz.synth".into()), Query::Cls("fill".into()),
+            Query::Mth("zz.late".into(), "lm".into()), Query::Mth("zz.late".into(), "ln".into()), Query::Mth("zz.synth".into(), "sc".into()),
+            Query::Mth("fill".into(), format!("f{}", filler - 1)),
+            Query::Frp("zz.late".into(), "lm".into(), "late.Param".into()), Query::Frp("zz.late".into(), "lm".into(), "late.P2".into()),
+            Query::Frp("zz.late".into(), "lu".into(), "late.P3".into()), Query::Frp("zz.synth".into(), "sp".into(), "late.Q".into()),
+            Query::Frp("zz.synth".into(), "sc".into(), "late.Q".into()), Query::Frp("fill".into(), format!("f{}", filler - 1), "int".into()),
+        ];
+        for l in [0usize, 1, 3, 5, 6, 7, 9] {
+            qs.push(Query::Frl("zz.late".into(), "lm".into(), l, None));
+            qs.push(Query::Frl("zz.late".into(), "ln".into(), l, Some("Obf.java".into())));
+            qs.push(Query::Frl("zz.late".into(), "lu".into(), l, None));
+            qs.push(Query::Frl("zz.synth".into(), "sc".into(), l, None));
+            qs.push(Query::Frl("zz.synth".into(), "sp".into(), l, Some("Obf.java".into())));
+        }
+        for q in &qs {
+            rep.checks += 1;
+            let a = q.run(&mapper);
+            let b = q.run(&cache);
+            if a != "[]" && a != "-" {
+                rep.nontrivial += 1;
+            }
+            if a != b {
+                rep.fail(
+                    "mapper and cache disagree on strings stored at large string-table offsets",
+                    vec![format!("# mapping: class fill with {} methods `void fillerMethodNumber<i>WithALongishName(int) -> f<i>`, then classes zz.late (sourceFile LateFile.kt, foreign class, parameters) and zz.synth (R8$$SyntheticClass)", filler), q.op(false)],
+                    format!("mapper={} cache={}", &a[..a.len().min(400)], &b[..b.len().min(400)]),
+                );
+            }
+        }
+        rep.sample(format!("{} filler methods (string table > {} bytes), {} queries", filler, filler * 40, qs.len()));
+    }
     // very many distinct (obfuscated, arguments, original) triples that share obfuscated name and
     // arguments: every one is its own by-params entry, in mapper and cache alike
     for n in if thorough(tier) { vec![70_000usize, 300_000] } else { vec![200_000usize] } {
@@ -263,6 +317,8 @@ pub fn oracle_c02(_rng: &mut Rng, tier: &str) -> Report {
         for i in 0..n {
             t.push_str(&format!("    void method{}(int) -> a\n", i));
         }
+        // a later class: its by-params range starts beyond 2^16 entries
+        t.push_str("o.Next -> next:\n    void first(int) -> a\n    void second(int) -> a\n    3:4:void third(long):7:8 -> b\n");
         let ms: &'static [u8] = Box::leak(t.into_bytes().into_boxed_slice());
         let mapper = proto::cur::mapper(ms, true);
         let cbytes = proto::aligned_static(&proto::cur::write_cache(ms));
@@ -284,6 +340,47 @@ pub fn oracle_c02(_rng: &mut Rng, tier: &str) -> Report {
             );
         } else {
             rep.nontrivial += 1;
+        }
+        for q in [Query::Frp("next".into(), "a".into(), "int".into()), Query::Frp("next".into(), "b".into(), "long".into()),
+                  Query::Frl("next".into(), "b".into(), 3, None), Query::Mth("next".into(), "b".into()), Query::Cls("next".into())] {
+            rep.checks += 1;
+            let (x, y) = (q.run(&mapper), q.run(&cache));
+            if x != y || x == "[]" || x == "-" {
+                rep.fail("mapper and cache disagree on the class after one with very many by-params entries",
+                         vec![format!("# mapping: class many with {} lines `void method<i>(int) -> a`, then class next", n), q.op(false)],
+                         format!("mapper={} cache={}", &x[..x.len().min(300)], &y[..y.len().min(300)]));
+            }
+        }
+    }
+    // more than 2^16 classes: the class count and every per-class offset exceed 16 bits
+    {
+        let n = 70_000usize;
+        let mut t = String::with_capacity(n * 48);
+        for i in 0..n {
+            t.push_str(&format!("o.C{} -> c{:05}:\n    void m{}(int) -> a\n", i, i, i));
+        }
+        let ms: &'static [u8] = Box::leak(t.into_bytes().into_boxed_slice());
+        let mapper = proto::cur::mapper(ms, true);
+        let cbytes = proto::aligned_static(&proto::cur::write_cache(ms));
+        rep.checks += 1;
+        match ProguardCache::parse(cbytes) {
+            Err(_) => rep.fail("own output does not parse", vec![format!("# {} classes", n)], String::new()),
+            Ok(cache) => {
+                for i in [0usize, 1, 255, 256, 65534, 65535, 65536, 65537, 69_999] {
+                    let c = format!("c{:05}", i);
+                    for q in [Query::Cls(c.clone()), Query::Mth(c.clone(), "a".into()), Query::Frl(c.clone(), "a".into(), 0, None), Query::Frp(c.clone(), "a".into(), "int".into())] {
+                        rep.checks += 1;
+                        let (x, y) = (q.run(&mapper), q.run(&cache));
+                        if x != y || x == "[]" || x == "-" {
+                            rep.fail("mapper and cache disagree on a mapping with more than 2^16 classes",
+                                     vec![format!("# mapping: {} classes `o.C<i> -> c<i:05>:` each with `void m<i>(int) -> a`", n), q.op(false)],
+                                     format!("mapper={} cache={}", x, y));
+                        } else {
+                            rep.nontrivial += 1;
+                        }
+                    }
+                }
+            }
         }
     }
     rep
@@ -846,6 +943,48 @@ pub fn oracle_c11(rng: &mut Rng, tier: &str) -> Report {
         }
         if i < 2 {
             rep.sample(format!("{} byte cache, {} prefixes", bytes.len(), bytes.len() / step));
+        }
+    }
+    // a file that ends in one huge string whose length prefix crosses the 3 -> 4 byte LEB128
+    // boundary (2^21): the declared string-section size must still be exact, so every torn tail is
+    // rejected
+    for len in [2_097_151usize, 2_097_152, 2_097_200] {
+        for kind in 0..2 {
+            let text = if kind == 0 { format!("o.Z -> zlast:\n    void m({}) -> a\n", "p".repeat(len)) } else { format!("o.A -> a:\n    void m() -> b\no.{} -> zlast:\n", "L".repeat(len)) };
+            let bytes = proto::cur::write_cache_safe(text.as_bytes());
+            let full = proto::aligned_static(&bytes);
+            rep.checks += 1;
+            let Ok(fc) = proto::cur::parse_cache(full) else {
+                rep.fail("the writer's own output does not parse", vec![format!("# mapping ending in a {}-byte string", len)], String::new());
+                continue;
+            };
+            let q = if kind == 0 { Query::Frp("zlast".into(), "a".into(), "p".repeat(len)) } else { Query::Cls("zlast".into()) };
+            let want = q.run(&fc);
+            if want == "[]" || want == "-" {
+                rep.fail("the full file does not answer the query for its last string", vec![format!("# mapping ending in a {}-byte string", len)], want.clone());
+            }
+            if implied_len(&bytes) != Some(bytes.len()) {
+                rep.fail("file length differs from the length its header implies", vec![format!("# mapping ending in a {}-byte string", len)],
+                         format!("implied {:?} actual {}", implied_len(&bytes), bytes.len()));
+            }
+            for k in bytes.len().saturating_sub(6)..bytes.len() {
+                rep.checks += 1;
+                let p = proto::aligned_static(&bytes[..k]);
+                match catch_unwind(AssertUnwindSafe(|| proto::cur::parse_cache(p))) {
+                    Err(_) => rep.fail("parse panicked on a prefix", vec![format!("# mapping ending in a {}-byte string, prefix {}", len, k)], String::new()),
+                    Ok(Err(_)) => rep.nontrivial += 1,
+                    Ok(Ok(pc)) => {
+                        let got = q.run(&pc);
+                        if got != want {
+                            rep.fail(
+                                "an accepted strict prefix answers differently from the full file",
+                                vec![format!("# mapping ending in a {}-byte string ({}); prefix of {} of {} bytes accepted", len, if kind == 0 { "parameter list of the last method" } else { "original name of the last class" }, k, bytes.len())],
+                                format!("full answer has {} bytes, prefix answer {}", want.len(), &got[..got.len().min(100)]),
+                            );
+                        }
+                    }
+                }
+            }
         }
     }
     rep
